@@ -27,6 +27,7 @@ from ural.quote import (
     safely_unquote_qsl,
     safely_unquote_fragment,
     safely_quote,
+    safely_quote_password,
     safely_quote_qsl,
     upper_quoted,
 )
@@ -391,7 +392,7 @@ def normalize_url(
 
     if password:
         if quoted:
-            password = safely_quote(password)
+            password = safely_quote_password(password)
         else:
             password = safely_unquote_auth_item(password)
 
